@@ -74,6 +74,8 @@ impl FragmentTree {
     pub(crate) fn enclose_recursive(fragment_trees: Vec<Self>) -> Vec<Self> {
         let original_len = fragment_trees.len();
         let merged = Self::second_pass_enclose(fragment_trees);
+        #[cfg(feature = "verif-trace")]
+        crate::verif::count_enclose_pass(original_len, merged.len());
         if merged.len() < original_len {
             Self::enclose_recursive(merged)
         } else {
@@ -85,6 +87,8 @@ impl FragmentTree {
     fn second_pass_enclose(fragment_trees: Vec<Self>) -> Vec<Self> {
         let mut new_trees: Vec<Self> = vec![];
         for frag_tree in fragment_trees {
+            #[cfg(feature = "verif-trace")]
+            crate::verif::count_enclose_attempts(new_trees.len());
             let is_enclosed = new_trees
                 .iter_mut()
                 .rev()
@@ -113,11 +117,35 @@ impl FragmentTree {
 
     /// convert fragments to node, where cell_text and text may become
     /// css class of the contain fragment
+    #[cfg(feature = "verif-trace")]
+    fn verif_json(&self) -> String {
+        format!(
+            "{{\"f\":{},\"tags\":{},\"in\":{}}}",
+            crate::verif::json_fragment(&self.fragment.fragment),
+            crate::verif::json_list(self.css_tag.iter(), |t| {
+                crate::verif::json_chars(t)
+            }),
+            crate::verif::json_list(self.enclosing.iter(), |t| t.verif_json())
+        )
+    }
+
     pub(crate) fn fragments_to_node<MSG>(
         fragments: Vec<FragmentSpan>,
     ) -> Vec<Node<MSG>> {
+        #[cfg(feature = "verif-trace")]
+        let scaled_input =
+            crate::verif::json_fragment_spans(fragments.iter());
         let fragment_trees: Vec<FragmentTree> =
             Self::enclose_fragments(fragments);
+        #[cfg(feature = "verif-trace")]
+        crate::verif::emit("enclose", || {
+            format!(
+                "\"input\":{},\"trees\":{}",
+                scaled_input,
+                crate::verif::json_list(fragment_trees.iter(), |t| t
+                    .verif_json())
+            )
+        });
         fragment_trees
             .into_iter()
             .flat_map(|frag_tree| frag_tree.into_nodes())
